@@ -53,6 +53,13 @@ SelectMenu == {
   Sel(<<P(InE(FALSE, V, <<One, Lit(IntV(2))>>), "m"), P(InE(TRUE, K, <<Lit(A), Lit(B)>>), "")>>, NoE, FALSE, NoLimit, "none")
 }
 
+\* C03 / C16: an INT column against REAL literals at the points where INT and REAL part company (2^53, 2^53 + 2, 2^63, -2^63) and at ordinary values,
+\* under every comparison operator, with the REAL on either side, through IN and in WHERE (over LinesBig: 2^53 + 1, i64::MAX, i64::MIN ...)
+EdgeReals == {P53, P53b, P63, N63, RealV(1, 1), RealV(3, 2)}
+NumCmpMenu == {Sel(<<P(CmpE(op, V, Lit(x)), "l"), P(CmpE(op, Lit(x), V), "r")>>, NoE, FALSE, NoLimit, "none") : op \in {"=", "!=", "<", "<=", ">", ">="}, x \in EdgeReals}
+              \cup {Sel(<<P(V, "")>>, CmpE(op, V, Lit(x)), FALSE, NoLimit, "none") : op \in {"=", ">", "<="}, x \in {P53, P53b, P63}}
+              \cup {Sel(<<P(InE(ng, V, <<Lit(P53), Lit(RealV(1, 1))>>), "m")>>, NoE, FALSE, NoLimit, "none") : ng \in BOOLEAN}
+
 \* C03: functions, casts, CASE, EXTRACT, subscripts and nested expressions evaluated on each row
 Two == Lit(IntV(2))
 ArrVV == Call("array", <<V, Two>>)
